@@ -4,10 +4,13 @@ import Tahoe.Storage.Crawler
     `crawl <np> <event>…` with event =
       `s/<oracle>/<listing>`      a complete slice
       `k<K>/<oracle>/<listing>`   a slice killed after K completed process_bucket calls
-      `r`                         restart between slices
+      `r`                         process lost between slices, restarted from the state file
+      `g`                         orderly stopService() between slices, then restarted
     oracle = `-` or the comma-separated indices of the time checks that report "slice exceeded";
     listing = `-` or `p:b.b.b,p:b.b` (prefix index : bucket ranks in listdir order).
-    Output per event: `<log>/<cur>/<lcf>/<next>/<lcb>` joined by `;`, log = `c.p.b,…` or `-`. -/
+    Runs the process machine (`stepProc`: in-memory crawler + state file).
+    Output per event: `<log>/<file: cur>/<lcf>/<next>/<lcb>/m<memory: cur>/<lcf>/<next>/<lcb>` joined by `;`,
+    log = `c.p.b,…` or `-`; the file fields are what `load_state` would make of the file. -/
 open Tahoe.Drv Tahoe.Storage.Crawler
 
 def parseOracle (t : String) : Option (List Bool) := do
@@ -25,9 +28,10 @@ def parseListing (t : String) : Option (Nat → List Nat) :=
       | _ => none)
     pure (fun i => match pairs.find? (fun q => q.1 == i) with | some q => q.2 | none => [])
 
-def parseEvent (t : String) : Option Event :=
+def parseEvent (t : String) : Option PEvent :=
   match t.splitOn "/" with
   | ["r"] => some .restart
+  | ["g"] => some .stop
   | ["s", o, l] => do pure (.slice (← parseListing l) (← parseOracle o))
   | [k, o, l] =>
     if k.startsWith "k" then do
@@ -42,18 +46,20 @@ def showOpt : Option Nat → String
 def showLog (l : List Entry) : String :=
   if l.isEmpty then "-" else ",".intercalate (l.map (fun e => s!"{e.cycle}.{e.pfx}.{e.bucket}"))
 
-def runShow (np : Nat) : St → List Event → List String → List String
+def showP (p : Persist) : String := s!"{showOpt p.cur}/{showOpt p.lcf}/{p.next}/{showOpt p.lcb}"
+
+def runShow (np : Nat) : Proc → List PEvent → List String → List String
   | _, [], acc => acc.reverse
-  | s, ev :: evs, acc =>
-    let r := step np s ev
-    runShow np r.1 evs (s!"{showLog r.2}/{showOpt r.1.p.cur}/{showOpt r.1.p.lcf}/{r.1.p.next}/{showOpt r.1.p.lcb}" :: acc)
+  | P, ev :: evs, acc =>
+    let r := stepProc np P ev
+    runShow np r.1 evs (s!"{showLog r.2}/{showP (loadFile r.1.file).p}/m{showP r.1.mem.p}" :: acc)
 
 def handle : List String → String
   | "crawl" :: np :: evs =>
     match (do
       let n ← np.toNat?
       let es ← evs.mapM parseEvent
-      pure (";".intercalate (runShow n init es []))) with
+      pure (";".intercalate (runShow n procInit es []))) with
     | some out => out
     | none => "bad-op"
   | _ => "bad-op"
